@@ -33,7 +33,7 @@ namespace Pox.SwitchReq
 open Pox.Generated.SwitchDispatch
 
 inductive Err
-  | key | name | attr | runtime | unmodelled
+  | key | name | attr | runtime | struct | unmodelled
   deriving DecidableEq, Repr
 
 structure Port where
@@ -49,6 +49,8 @@ abbrev MKey := Option Nat
 structure Act where
   ty : Nat
   port : Nat
+  /-- encoded length of the action on the wire -/
+  len : Nat := 8
   deriving DecidableEq, Repr
 
 /-- a `TableEntry`: match, priority, cookie, flags, ports of its output actions -/
@@ -58,6 +60,20 @@ structure Flow where
   cookie : Nat
   flags : Nat
   outs : List Nat
+  /-- encoded length of the entry's action list -/
+  actsLen : Nat := 0
+  /-- `packet_count`, `byte_count` (moved only by data-plane traffic) -/
+  packets : Nat := 0
+  bytes : Nat := 0
+  deriving DecidableEq, Repr
+
+/-- an `ofp_port_stats` entry of `self.port_stats`: the four counters the data path moves -/
+structure PortCtr where
+  no : Nat
+  rxPackets : Nat := 0
+  txPackets : Nat := 0
+  rxBytes : Nat := 0
+  txBytes : Nat := 0
   deriving DecidableEq, Repr
 
 structure SwitchState where
@@ -72,7 +88,7 @@ structure SwitchState where
   /-- `self.ports` (insertion order) -/
   ports : List Port
   /-- keys of `self.port_stats` (a deleted port keeps its statistics) -/
-  portStats : List Nat
+  portStats : List PortCtr
   table : List Flow
   lookupCount : Nat
   matchedCount : Nat
@@ -217,9 +233,9 @@ def statsRequestClasses : List (Nat × String) :=
 inductive StatsBody
   | desc
   | flows (l : List Flow)
-  | aggregate (flowCount : Nat)
+  | aggregate (packets bytes flowCount : Nat)
   | table (maxEntries active lookup matched : Nat)
-  | ports (l : List Nat)
+  | ports (l : List PortCtr)
   | queues
   deriving DecidableEq, Repr
 
@@ -230,7 +246,8 @@ inductive Reply
   | featuresReply (xid dpid nBuffers nTables caps actions : Nat) (ports : List Port)
   | getConfigReply (xid flags missSendLen : Nat)
   | barrierReply (xid : Nat)
-  | statsReply (xid stype : Nat) (body : StatsBody)
+  /-- `more` = OFPSF_REPLY_MORE: further parts of the same reply follow -/
+  | statsReply (xid stype : Nat) (more : Bool) (body : StatsBody)
   /-- `queues = []` always -/
   | queueGetConfigReply (xid port : Nat)
   | error (xid etype code : Nat)
@@ -357,6 +374,7 @@ def addEntry (e : Flow) : List Flow → List Flow
   | x :: r => if e.priority ≥ x.priority then e :: x :: r else x :: addEntry e r
 
 def outsOf (acts : List Act) : List Nat := (acts.filter (·.ty == 0)).map (·.port)
+def actsLenOf (acts : List Act) : Nat := (acts.map (·.len)).sum
 
 def fmErr (xid code : Nat) : Reply := sendError xid OFPET_FLOW_MOD_FAILED code
 
@@ -375,13 +393,14 @@ def flowModAdd (s : SwitchState) (xid command : Nat) (mk : MKey) (prio cookie fl
   else
     let t1 := tableForAdd command s.table mk prio
     if t1.length ≥ s.maxEntries then ({ s with table := t1 }, [fmErr xid OFPFMFC_ALL_TABLES_FULL])
-    else ({ s with table := addEntry { mkey := mk, priority := prio, cookie := cookie, flags := flags, outs := outsOf acts } t1 }, [])
+    else ({ s with table := addEntry { mkey := mk, priority := prio, cookie := cookie, flags := flags, outs := outsOf acts,
+                                       actsLen := actsLenOf acts } t1 }, [])
 
 /-- `_flow_mod_modify` -/
 def flowModModify (strict : Bool) (s : SwitchState) (xid command : Nat) (mk : MKey) (prio cookie flags idle hard : Nat)
     (acts : List Act) : SwitchState × List Reply :=
   if s.table.any (fun e => isMatchedBy e mk prio strict none) then
-    ({ s with table := s.table.map fun e => if isMatchedBy e mk prio strict none then { e with outs := outsOf acts } else e }, [])
+    ({ s with table := s.table.map fun e => if isMatchedBy e mk prio strict none then { e with outs := outsOf acts, actsLen := actsLenOf acts } else e }, [])
   else flowModAdd s xid command mk prio cookie flags idle hard acts
 
 /-- removal notification wanted (`_handle_FlowTableModification`) -/
@@ -462,26 +481,67 @@ def rxPortMod (s : SwitchState) (xid portNo hw config mask : Nat) : SwitchState 
 
 def knownPort (s : SwitchState) (p : Nat) : Bool := s.ports.any (·.no == p)
 
+/-- the flows a flow / aggregate statistics request selects -/
+def statsSelect (s : SwitchState) (mk : MKey) (tid op : Nat) : List Flow :=
+  if tid ≠ TABLE_ALL ∧ tid ≠ 0 then []
+  else s.table.filter fun e => isMatchedBy e mk 0 false (if op = OFPP_NONE then none else some op)
+
 /-- a `_stats_*` handler: the errors it sends itself and the body it returns (`none` = Python `None`: no reply) -/
 def runStats (h : StatsH) (s : SwitchState) (xid : Nat) (req : StatsReq) : Except Err (List Reply × Option StatsBody) :=
   match h, req with
   | .desc, _ => .ok ([], some .desc)
-  | .flow, .flow mk tid op | .flow, .aggregate mk tid op =>
-    if tid ≠ TABLE_ALL ∧ tid ≠ 0 then .ok ([], some (.flows []))
-    else .ok ([], some (.flows (s.table.filter fun e => isMatchedBy e mk 0 false (if op = OFPP_NONE then none else some op))))
+  | .flow, .flow mk tid op | .flow, .aggregate mk tid op => .ok ([], some (.flows (statsSelect s mk tid op)))
   | .aggregate, .flow mk tid op | .aggregate, .aggregate mk tid op =>
-    if tid ≠ TABLE_ALL ∧ tid ≠ 0 then .ok ([], some (.aggregate 0))
-    else .ok ([], some (.aggregate (s.table.filter fun e => isMatchedBy e mk 0 false (if op = OFPP_NONE then none else some op)).length))
+    .ok ([], some (.aggregate ((statsSelect s mk tid op).map (·.packets)).sum ((statsSelect s mk tid op).map (·.bytes)).sum
+                     (statsSelect s mk tid op).length))
   | .table, _ => .ok ([], some (.table s.maxEntries s.table.length s.lookupCount s.matchedCount))
   | .port, .port p =>
     if p = OFPP_NONE then .ok ([], some (.ports s.portStats))
-    else if !s.portStats.contains p then .ok ([], some (.ports []))
-    else .ok ([], some (.ports [p]))
+    else .ok ([], some (.ports (s.portStats.filter (·.no == p))))
   | .queue, .queue p q =>
     if p ≠ OFPP_ALL ∧ !knownPort s p then .ok ([sendError xid OFPET_QUEUE_OP_FAILED OFPQOFC_BAD_PORT], none)
     else if q = OFPQ_ALL then .ok ([], some .queues)
     else .ok ([sendError xid OFPET_QUEUE_OP_FAILED OFPQOFC_BAD_QUEUE], none)
   | _, _ => .error .attr
+
+/-! #### multipart replies (repair C13-3): a list body is cut into parts that fit into one message -/
+
+/-- largest body of one `ofp_stats_reply`: 65535 minus the 12 header bytes -/
+def partLimit : Nat := 65523
+
+/-- `_split_stats_body`: greedy; `cur` is the part being filled (reversed), `sz` its encoded size -/
+def splitGo {α} (size : α → Nat) : List α → List α → Nat → List (List α)
+  | [], cur, _ => [cur.reverse]
+  | e :: r, cur, sz =>
+    if sz + size e > partLimit ∧ cur ≠ [] then cur.reverse :: splitGo size r [e] (size e)
+    else splitGo size r (e :: cur) (sz + size e)
+
+def splitParts {α} (size : α → Nat) (l : List α) : List (List α) := splitGo size l [] 0
+
+/-- encoded length of an `ofp_flow_stats` entry / an `ofp_port_stats` entry -/
+def flowEntryLen (f : Flow) : Nat := 88 + f.actsLen
+def portEntryLen (_ : PortCtr) : Nat := 104
+
+/-- the bodies of the parts a returned body is sent in -/
+def bodyParts : StatsBody → List StatsBody
+  | .flows l => (splitParts flowEntryLen l).map .flows
+  | .ports l => (splitParts portEntryLen l).map .ports
+  | b => [b]
+
+/-- encoded length of a reply body -/
+def bodyLen : StatsBody → Nat
+  | .desc => 1056
+  | .flows l => (l.map flowEntryLen).sum
+  | .aggregate .. => 24
+  | .table .. => 64
+  | .ports l => (l.map portEntryLen).sum
+  | .queues => 0
+
+/-- all parts but the last carry OFPSF_REPLY_MORE -/
+def markParts (xid stype : Nat) : List StatsBody → List Reply
+  | [] => []
+  | [b] => [.statsReply xid stype false b]
+  | b :: r => .statsReply xid stype true b :: markParts xid stype r
 
 /-- `_rx_stats_request` -/
 def rxStats (s : SwitchState) (xid : Nat) (req : StatsReq) : Res :=
@@ -491,7 +551,11 @@ def rxStats (s : SwitchState) (xid : Nat) (req : StatsReq) : Res :=
     match runStats h s xid req with
     | .error e => .error e
     | .ok (errs, none) => .ok (s, errs)
-    | .ok (errs, some body) => .ok (s, errs ++ [.statsReply xid req.stype body])
+    | .ok (errs, some body) =>
+      -- `ofp_stats_reply.pack`: the 16-bit length field (`struct.error` when a part is longer than a message can be,
+      -- i.e. when a single entry does not fit)
+      if (bodyParts body).all (fun b => bodyLen b ≤ partLimit) then .ok (s, errs ++ markParts xid req.stype (bodyParts body))
+      else .error .struct
 
 /-! ### dispatch -/
 
@@ -547,6 +611,65 @@ def runTolerant : SwitchState → List Msg → SwitchState × List (Except Err (
     match rxMessage s m with
     | .error e => let r := runTolerant s ms; (r.1, .error e :: r.2)
     | .ok (s1, o) => let r := runTolerant s1 ms; (r.1, .ok o :: r.2)
+
+/-! ### what is not a controller message: connection-level rejections and the data plane -/
+
+/-- counters (and buffer occupancy) of the real switch after data-plane activity; the data path itself is C12's -/
+structure Snapshot where
+  ports : List PortCtr
+  /-- (packet_count, byte_count) per table entry, in table order -/
+  flows : List (Nat × Nat)
+  lookupCount : Nat
+  matchedCount : Nat
+  /-- `none`: buffers untouched -/
+  buffers : Option (List Bool)
+  deriving Repr
+
+def applyFlowCtrs : List Flow → List (Nat × Nat) → List Flow
+  | f :: fs, (p, b) :: cs => { f with packets := p, bytes := b } :: applyFlowCtrs fs cs
+  | fs, _ => fs
+
+/-- the counters move (only they, and the buffers when frames reached the controller path) -/
+def applySnapshot (s : SwitchState) (n : Snapshot) : SwitchState :=
+  { s with portStats := n.ports, table := applyFlowCtrs s.table n.flows, lookupCount := n.lookupCount,
+           matchedCount := n.matchedCount, buffers := match n.buffers with | some b => b | none => s.buffers }
+
+/-- everything that happens at the switch end of the connection, in order -/
+inductive Event
+  /-- a decoded controller message reaches `rx_message` -/
+  | msg (m : Msg)
+  /-- `OFConnection.read` rejects a message itself (no unpacker: code OFPBRC_BAD_TYPE = 1; undecodable or ill-sized
+      body: code OFPBRC_BAD_LEN = 6) and answers with an error quoting that message (`_error_handler`) -/
+  | rejected (xid code : Nat)
+  /-- a message with a foreign version octet: HELLO_FAILED/INCOMPATIBLE only while no message has been accepted yet
+      (`starting`); the connection is closed in either case -/
+  | badVersion (xid : Nat) (starting : Bool)
+  /-- data-plane traffic went through the switch: counters as observed afterwards -/
+  | traffic (n : Snapshot)
+
+def stepEv (s : SwitchState) : Event → Res
+  | .msg m => rxMessage s m
+  | .rejected xid code => .ok (s, [.error xid OFPET_BAD_REQUEST code])
+  | .badVersion xid starting => .ok (s, if starting then [.error xid OFPET_HELLO_FAILED OFPHFC_INCOMPATIBLE] else [])
+  | .traffic n => .ok (applySnapshot s n, [])
+
+def runEv : SwitchState → List Event → Except Err (SwitchState × List (List Reply))
+  | s, [] => .ok (s, [])
+  | s, e :: es =>
+    match stepEv s e with
+    | .error x => .error x
+    | .ok (s1, o) =>
+      match runEv s1 es with
+      | .error x => .error x
+      | .ok (s2, os) => .ok (s2, o :: os)
+
+/-- driver-only: a handler exception is logged and the loop goes on -/
+def runEvTolerant : SwitchState → List Event → SwitchState × List (Except Err (List Reply))
+  | s, [] => (s, [])
+  | s, e :: es =>
+    match stepEv s e with
+    | .error x => let r := runEvTolerant s es; (r.1, .error x :: r.2)
+    | .ok (s1, o) => let r := runEvTolerant s1 es; (r.1, .ok o :: r.2)
 
 /-- what the decoder guarantees about a delivered message: a stats body of the generic class only for type codes without
 a dedicated request class, `unhandled` only for type codes of other classes -/
